@@ -333,6 +333,7 @@ def rxKind? : Sexp → Option RxKind
   | .atom "stalled" => some .stalled
   | .atom "gone" => some .gone
   | .atom "late" => some .late
+  | .atom "refill" => some .refill
   | .atom "hangup" => some .hangup
   | _ => none
 
@@ -354,10 +355,23 @@ def runBlocking (line : String) : String :=
     | some api, some ctx, some rx, some cap, some prefill, some timeout =>
       let cfg := Cfg.real cap
       let path := blockingPath api ctx
-      let rxn := match rx with | .live => "live" | .stalled => "stalled" | .gone => "gone" | .late => "late" | .hangup => "hangup"
+      let rxn := match rx with | .live => "live" | .stalled => "stalled" | .gone => "gone" | .late => "late" | .refill => "refill" | .hangup => "hangup"
       let sig := s!"{pathName path},{op},rx={rxn}"
       if (api = .async ∧ ctx ≠ .tokioCurrentThread) ∨ (rx = .hangup ∧ (api ≠ .async ∨ op ≠ "flush")) then "bad-op"
+      else if rx = .refill ∧ (op ≠ "send" ∨ prefill < cap ∨ api = .async ∨ timeout < 200 ∨ timeout > 5000) then "bad-op"
       else if pathPanics path ctx then s!"panic\t{sig}"
+      else if rx = .refill then
+        -- remaining-time accounting (C08.send_or_wait_within_budget): the last clock reading is within 1.4·T
+        let (first, obs) := blockingSendObs cfg rx prefill timeout 999
+        let res := match sendOrWait timeout first obs with
+          | some .ok => "ok"
+          | some (.handedBack y) => s!"err({y})"
+          | some .errNoItem => "err(noitem)"
+          | none => "blocked"
+        let within := match sendOrWaitLastReading timeout first obs with
+          | some t => decide (t * 10 ≤ timeout * 14)
+          | none => true
+        s!"{res},{if within then "within-budget" else "over-budget"}\t{sig}"
       else if api = .async ∧ op = "flush" then s!"{asyncFlush cfg rx prefill timeout}\tasync,{op},rx={rxn}"
       else if op = "flush" then
         match blockingFlush cfg rx prefill timeout with
@@ -376,7 +390,8 @@ def runBlocking (line : String) : String :=
 /-- C08 projection: did the call return or panic. -/
 def runBlockingC08 (line : String) : String :=
   match (runBlocking line).splitOn "\t" with
-  | [o, sig] => (if o == "panic" then "panic" else if o == "bad-op" then "bad-op" else if o == "blocked" then "blocked" else "returned") ++ "\t" ++ sig
+  | [o, sig] => (if o == "panic" then "panic" else if o == "bad-op" then "bad-op" else if o == "blocked" then "blocked"
+      else if (o.splitOn "-budget").length > 1 then o else "returned") ++ "\t" ++ sig
   | _ => runBlocking line
 
 /-- stream `batcher_mt` (thorough): an OS-scheduled soak on real threads, judged by the implementation-side oracle
